@@ -4,11 +4,13 @@ import LitexModel.Bridge.NumChain
 open Litex Litex.Driver Litex.Bridge
 
 /-- Pure calls: `chain …` (`SoCBusHandler.add_adapter` selection), `chainbyte …` (byte map of a chain),
-    `conv dwFrom dwTo` (down / up / direct choice of the converter wrappers); see `LitexModel/Bridge/Adapter.lean`. -/
+    `conv dwFrom dwTo` (down / up / direct choice of the converter wrappers), `axsize dw` (AxSIZE code AXILite2AXI /
+    Wishbone2AXI announce on a dw-bit bus); see `LitexModel/Bridge/Adapter.lean`. -/
 def call : List String → Option String
   | "chain" :: rest => (parseNats rest).bind Adapter.callChain
   | "chainbyte" :: rest => (parseNats rest).bind Adapter.callChainByte
   | "conv" :: rest => (parseNats rest).bind Adapter.callConv
+  | ["axsize", dw] => dw.toNat?.map fun n => toString (Axl2Axi.sizeOf n)
   | _ => none
 
 def main : IO Unit := mainLoop openChain call
